@@ -69,6 +69,10 @@ inductive Sent
   | raised (e : Exc)
   deriving DecidableEq, Repr, Inhabited
 
+/-- where a send comes from: the main loop or the abort sweep of the `finally:` clause -/
+inductive Phase | loop | final
+  deriving DecidableEq, Repr, Inhabited
+
 /-- The tasker side of the scheduler, abstractly.  `send i c stamp w`: tasker `i`'s generator is
 resumed with control `c` while its store shows `stamp`; everything the run does (including bids
 on other taskers) is in the returned world. -/
@@ -80,7 +84,9 @@ structure Env (τ ω : Type) where
   active : ω → Nat → Bool
   /-- the two attribute writes of `addReadyTask` -/
   setReady : Nat → Control → ω → ω
-  send : Nat → Control → τ → ω → Sent × ω
+  /-- the first argument (main loop or abort sweep) is a ghost of the model: the Python generator
+  cannot see it; environments may only record it -/
+  send : Phase → Nat → Control → τ → ω → Sent × ω
   /-- exception (if any) delivered while the time stamps are advanced after pass number `tick`
   (stands for `time.sleep` / `store.changeStamp` being interrupted) -/
   boundary : Nat → ω → Option Exc
@@ -93,9 +99,6 @@ structure Entry (τ : Type) where
   retime : τ
   period : τ
   deriving Repr, Inhabited
-
-inductive Phase | loop | final
-  deriving DecidableEq, Repr, Inhabited
 
 /-- one `runner.send` performed by the scheduler -/
 structure Event (τ : Type) where
@@ -171,7 +174,7 @@ def body (E : Env τ ω) (s : St τ ω) (more : Bool) : BodyOut τ ω :=
       checkMore { s with ready := rest ++ [e], status := some (E.status s.world e.id) } more
     else
       let c := E.desire s.world e.id
-      let r := E.send e.id c s.storeStamp s.world
+      let r := E.send .loop e.id c s.storeStamp s.world
       let ev : Event τ := { phase := .loop, tick := s.tick, id := e.id, control := c,
                             stamp := s.storeStamp, result := r.1, periodAfter := E.period r.2 e.id }
       let w := r.2
@@ -244,7 +247,7 @@ def finalLoop (E : Env τ ω) : Nat → St τ ω → Option Exc × St τ ω
     match s.ready with
     | [] => (some .indexError, s)
     | e :: rest =>
-      let r := E.send e.id .abort s.storeStamp s.world
+      let r := E.send .final e.id .abort s.storeStamp s.world
       let ev : Event τ := { phase := .final, tick := s.tick, id := e.id, control := .abort,
                             stamp := s.storeStamp, result := r.1, periodAfter := E.period r.2 e.id }
       let s' := { s with ready := rest, world := r.2, events := s.events ++ [ev] }
@@ -380,7 +383,7 @@ def ScriptEnv : Env τ (World τ) where
   status w i := (w.get i).status
   active w i := (w.get i).active
   setReady i c w := w.modify i (fun t => { t with desire := c, status := .stopped })
-  send := scriptSend
+  send _ := scriptSend
   boundary _ _ := none
 
 /-- A complete scheduler configuration in the driver's concrete world. -/
@@ -407,9 +410,11 @@ def Config.run (c : Config τ) (fuel : Nat) : Outcome × St τ (World τ) :=
 def Event.shape {τ : Type} (e : Event τ) : Phase × Nat × Nat × Control × Sent :=
   (e.phase, e.tick, e.id, e.control, e.result)
 
-/-- **Region of finding D2.** The binary64 run and the exact run of the same configuration
-(same decimal numbers, read as doubles and as rationals) send different controls in some pass. -/
-def floatDrift (cf : Config Float) (cx : Config Rat) (fuel : Nat) : Bool :=
+/-- **Region of finding D2.** The run of the configuration `cf` over a rounding time type (binary64:
+hardware `Float` in the driver, `F64` in the theorems) and the exact run of the same configuration
+`cx` (same decimal numbers, read as rationals) differ: another outcome, or another control to
+another tasker in some pass. -/
+def floatDrift {τ : Type} [TimeLike τ] (cf : Config τ) (cx : Config Rat) (fuel : Nat) : Bool :=
   let rf := cf.run fuel
   let rx := cx.run fuel
   !(rf.1 = rx.1 && rf.2.events.map Event.shape = rx.2.events.map Event.shape)
